@@ -114,6 +114,14 @@ impl Signature {
     }
 
     pub fn from_compact_impl(compact_bytes: &[u8]) -> Result<Signature, BSVErrors> {
+        if compact_bytes.len() != 65 {
+            return Err(BSVErrors::SignatureError("A compact signature must be precisely 65 bytes long."));
+        }
+
+        if !(27..=34).contains(&compact_bytes[0]) {
+            return Err(BSVErrors::SignatureError("The first byte of a compact signature must be between 27 and 34."));
+        }
+
         // 27-30: P2PKH uncompressed
         // 31-34: P2PKH compressed
         let (recovery, is_compressed) = match (compact_bytes[0] - 27) as i8 - 4 {
